@@ -259,6 +259,45 @@ Proof. reflexivity. Qed.
 Lemma exec_set_nf s v : exec s (SetNF rx v) = do s1 <- setnf s v; Ok (s1, ONone).
 Proof. reflexivity. Qed.
 
+(* ---- sub / gsub (and the other read-modify-write forms) with a field or $0 as target ------ *)
+
+Lemma set_field_after_get s k s1 old fl t :
+  getf s k = Ok (s1, old, fl) -> setf s1 k t = setf s k t.
+Proof.
+  intros H. unfold get_field in H. destruct (k =? 0) eqn:Ek.
+  - injection H as <- _ _. reflexivity.
+  - destruct (ensure s) as [s2| | |] eqn:He; cbn [rbind] in H; try discriminate.
+    assert (s1 = s2) as ->.
+    { cbv zeta in H.
+      destruct (_ <? 1); [injection H as <- _ _; reflexivity|].
+      destruct (_ >? _); [injection H as <- _ _; reflexivity|].
+      destruct (index (fields_true rx s2) _); cbn [rbind] in H; try discriminate.
+      destruct (index (fields rx s2) _); cbn [rbind] in H; try discriminate.
+      injection H as <- _ _. reflexivity. }
+    unfold set_field. rewrite Ek. destruct (k >? maxFieldIndex); [reflexivity|].
+    rewrite He, (ensure_idem rx all_matches _ _ He). reflexivity.
+Qed.
+
+(* ModField i f with f = what sub/gsub computes from the old text: when a substitution was made
+   (f old = Some t) the operation IS the assignment $i = t -- whether or not t differs from the
+   old text --, when none was made (None) the record is left alone *)
+Theorem modfield_some_is_assignment s x f old s1 fl t :
+  getf s (float_to_int x) = Ok (s1, old, fl) -> f old = Ok (Some t) ->
+  exec s (ModField rx (IConst x) f) = exec s (SetField rx (IConst x) t).
+Proof.
+  intros Hg Hf. cbn [exec_op eval_idx rbind]. rewrite Hg. cbn [rbind]. rewrite Hf. cbn [rbind].
+  rewrite (set_field_after_get _ _ _ _ _ t Hg). reflexivity.
+Qed.
+
+Theorem modfield_none_is_read s x f old s1 fl :
+  getf s (float_to_int x) = Ok (s1, old, fl) -> f old = Ok None ->
+  exec s (ModField rx (IConst x) f) = Ok (s1, ONone) /\ viewof s1 = viewof s.
+Proof.
+  intros Hg Hf. split.
+  - cbn [exec_op eval_idx rbind]. rewrite Hg. cbn [rbind]. rewrite Hf. reflexivity.
+  - exact (view_get_field _ _ _ _ _ Hg).
+Qed.
+
 (* ---- no operation panics ------------------------------------------------------ *)
 
 Definition op_safe (o : op) : Prop :=
